@@ -16,6 +16,8 @@ pub enum Expand {
     Timeout(f64),
     Died,
     Nondeterministic(String),
+    /// The macro returned tokens that are not syntactically valid Rust.
+    Unparsable(String),
 }
 
 impl Expand {
@@ -34,6 +36,7 @@ impl Expand {
             Expand::Timeout(s) => format!("timeout after {:.1}s", s),
             Expand::Died => "worker died (memory limit or abort)".to_string(),
             Expand::Nondeterministic(m) => format!("nondeterministic: {}", m),
+            Expand::Unparsable(m) => format!("unparsable output: {}", trunc(m, 300)),
         }
     }
 }
@@ -145,6 +148,7 @@ impl Worker {
             Some("panic") => Expand::Panic(msg),
             Some("lex_error") => Expand::LexError(msg),
             Some("nondeterministic") => Expand::Nondeterministic(msg),
+            Some("unparsable_output") => Expand::Unparsable(msg),
             _ => Expand::Died,
         }
     }
